@@ -1,14 +1,469 @@
-//! placeholder, filled in later
+//! C14: field-level corruption of valid configurations against an independent well-formedness
+//! checker, for instantiate, UpdateConfig (all subsets of sections) and validator edits.
+
+use crate::engine::{addr20, addr32, Violation};
 use crate::run::Eval;
+use crate::util::*;
+use crate::world::*;
 use serde::{Deserialize, Serialize};
+use serde_json::{json, Value};
 
 #[derive(Serialize, Deserialize, Clone, Debug, PartialEq)]
-pub struct CCase {}
-
-pub fn eval(_c: &CCase) -> Eval {
-    Eval::default()
+pub struct CCase {
+    pub proto_prefix: String,
+    pub native_prefix: String,
+    /// 0 instantiate, 1 update, 2 add validator, 3 remove validator
+    pub mode: u8,
+    pub sections: u8,
+    /// (field, kind, arg)
+    pub muts: Vec<(u8, u8, u8)>,
+    pub with_oracle: bool,
+    pub with_treasury: bool,
 }
 
-pub fn gen(_seed: u64) -> CCase {
-    CCase {}
+pub fn gen(seed: u64) -> CCase {
+    let mut rng = Rng::new(seed);
+    let proto_prefix = rng.pick(&["osmo", "osmo", "milk", "init"]).to_string();
+    let native_prefix = if rng.chance(1, 8) { proto_prefix.clone() } else { rng.pick(&["celestia", "init", "tia"]).to_string() };
+    let n = if rng.chance(1, 6) { 0 } else { rng.range(1, 3) };
+    CCase {
+        proto_prefix,
+        native_prefix,
+        mode: *rng.pick(&[0u8, 0, 1, 1, 1, 2, 3]),
+        sections: rng.range(1, 31) as u8,
+        muts: (0..n).map(|_| (rng.below(15) as u8, rng.below(14) as u8, rng.below(16) as u8)).collect(),
+        with_oracle: rng.chance(3, 4),
+        with_treasury: rng.chance(1, 2),
+    }
+}
+
+fn flip_last(s: &str) -> String {
+    let mut t = s.to_string();
+    match t.pop() {
+        Some('q') => t.push('p'),
+        Some(_) => t.push('q'),
+        None => {}
+    }
+    t
+}
+
+/// generic string corruption
+fn mutate(s: &str, kind: u8, arg: u8, other_prefix: &str) -> String {
+    match kind % 14 {
+        0 => s.to_uppercase(),
+        1 => {
+            let mut cs: Vec<char> = s.chars().collect();
+            if !cs.is_empty() {
+                let i = arg as usize % cs.len();
+                cs[i] = if cs[i].is_ascii_lowercase() { cs[i].to_ascii_uppercase() } else { cs[i].to_ascii_lowercase() };
+            }
+            cs.into_iter().collect()
+        }
+        2 => s[..s.len().saturating_sub(1 + arg as usize % 3)].to_string(),
+        3 => flip_last(s),
+        4 => String::new(),
+        5 => match b32_decode(s) {
+            Some((_, d, _)) => b32_encode(other_prefix, &d),
+            None => format!("{}x", s),
+        },
+        6 => match b32_decode(s) {
+            Some((h, d, _)) => b32_encode_variant(&h, &d, B32Variant::Bech32m),
+            None => s.to_string(),
+        },
+        7 => format!("{}{}", s, ['a', '1', ' ', 'Q'][arg as usize % 4]),
+        8 => format!(" {}", s),
+        9 => format!("{}é", s),
+        10 => match b32_decode(s) {
+            Some((h, d, _)) => b32_encode(&h, &d[..d.len().min(19)]),
+            None => s.to_string(),
+        },
+        11 => s.replace('1', "l"),
+        12 => s.to_string(), // no change
+        _ => s.chars().rev().collect(),
+    }
+}
+
+const BAD_CHANNELS: &[&str] = &["channel-", "channel-1x", "chan-1", "channel--1", "channel-18446744073709551616", "channel-+5", "channel-007", "Channel-1", "channel-1 ", "", "channel-1/2", "channel-١"];
+const BAD_IBC: &[&str] = &["ibc/", "ibc/ABC", "IBC/", "ibc", "", "xibc/"];
+const BAD_PREFIX: &[&str] = &["OSMO", "Osmo", "", "os mo", "osmo\u{7f}", "ośmo", "CELESTIA", "celestiA"];
+const BAD_DENOM: &[&str] = &["uti", "utia1", "u-tia", "", "milk TIA", "milkTIÄ", "abcd", "ABCD"];
+
+/// Independent well-formedness of the supplied sections of a stored configuration.
+pub fn well_formed(cfg: &Value, native: bool, protocol: bool, fee: bool, monitors: bool) -> Result<(), String> {
+    let hrp_ok = |h: &str| !h.is_empty() && h.len() <= 83 && h.bytes().all(|b| (33..=126).contains(&b) && !b.is_ascii_uppercase());
+    let addr_ok = |a: &str, hrp: &str| b32_decode(a).map(|d| d.0 == hrp).unwrap_or(false);
+    let pp = cfg["protocol_chain_config"]["account_address_prefix"].as_str().unwrap_or("");
+    if native {
+        let n = &cfg["native_chain_config"];
+        let ap = n["account_address_prefix"].as_str().unwrap_or("");
+        let vp = n["validator_address_prefix"].as_str().unwrap_or("");
+        if !hrp_ok(ap) {
+            return Err(format!("native account prefix {:?}", ap));
+        }
+        if !hrp_ok(vp) {
+            return Err(format!("validator prefix {:?}", vp));
+        }
+        let td = n["token_denom"].as_str().unwrap_or("");
+        if td.is_empty() || !td.chars().all(|c| c.is_ascii_alphabetic()) {
+            return Err(format!("native token denom {:?}", td));
+        }
+        let vals: Vec<&str> = n["validators"].as_array().map(|a| a.iter().map(|v| v.as_str().unwrap_or("")).collect()).unwrap_or_default();
+        for (i, v) in vals.iter().enumerate() {
+            if !addr_ok(v, vp) {
+                return Err(format!("validator {:?} under {:?}", v, vp));
+            }
+            if vals[..i].contains(v) {
+                return Err(format!("validator {:?} listed twice", v));
+            }
+        }
+        for f in ["staker_address", "reward_collector_address"] {
+            let a = n[f].as_str().unwrap_or("");
+            if !addr_ok(a, ap) {
+                return Err(format!("{} {:?} under {:?}", f, a, ap));
+            }
+        }
+    }
+    if protocol {
+        let p = &cfg["protocol_chain_config"];
+        if !hrp_ok(pp) {
+            return Err(format!("protocol account prefix {:?}", pp));
+        }
+        let ch = p["ibc_channel_id"].as_str().unwrap_or("");
+        let ok = ch.strip_prefix("channel-").map(|s| s.parse::<u64>().is_ok()).unwrap_or(false);
+        if !ok {
+            return Err(format!("channel {:?}", ch));
+        }
+        let d = p["ibc_token_denom"].as_str().unwrap_or("");
+        let okd = d.strip_prefix("ibc/").map(|s| s.len() == 64 || s.chars().count() == 64).unwrap_or(false);
+        if !okd {
+            return Err(format!("ibc denom {:?}", d));
+        }
+        if let Some(o) = p["oracle_address"].as_str() {
+            if !addr_ok(o, pp) {
+                return Err(format!("oracle {:?} under {:?}", o, pp));
+            }
+        }
+    }
+    if fee {
+        if let Some(t) = cfg["protocol_fee_config"]["treasury_address"].as_str() {
+            if !addr_ok(t, pp) {
+                return Err(format!("treasury {:?} under {:?}", t, pp));
+            }
+        }
+    }
+    if monitors {
+        let ms: Vec<&str> = cfg["monitors"].as_array().map(|a| a.iter().map(|v| v.as_str().unwrap_or("")).collect()).unwrap_or_default();
+        for (i, m) in ms.iter().enumerate() {
+            if !addr_ok(m, pp) {
+                return Err(format!("monitor {:?} under {:?}", m, pp));
+            }
+            if ms[..i].contains(m) {
+                return Err(format!("monitor {:?} listed twice", m));
+            }
+        }
+    }
+    Ok(())
+}
+
+struct Parts {
+    native: Value,
+    protocol: Value,
+    fee: Value,
+    monitors: Value,
+    subdenom: String,
+    batch_period: u64,
+}
+
+fn base_parts(c: &CCase, variant: u8) -> Parts {
+    let pp = &c.proto_prefix;
+    let np = &c.native_prefix;
+    let vp = format!("{}valoper", np);
+    let tag = |s: &str| format!("{}{}", s, variant);
+    Parts {
+        native: json!({
+            "account_address_prefix": np,
+            "validator_address_prefix": vp,
+            "token_denom": "utia",
+            "validators": [addr20(&vp, &tag("v0")), addr20(&vp, &tag("v1"))],
+            "unbonding_period": 1_814_400u64 + variant as u64,
+            "staker_address": addr20(np, &tag("staker")),
+            "reward_collector_address": addr20(np, &tag("collector")),
+        }),
+        protocol: json!({
+            "account_address_prefix": pp,
+            "ibc_token_denom": format!("ibc/{}", hex(&sha2_of(&tag("denom"))).to_uppercase()),
+            "ibc_channel_id": format!("channel-{}", 7 + variant as u64),
+            "minimum_liquid_stake_amount": "100",
+            "oracle_address": if c.with_oracle { Some(addr32(pp, &tag("oracle"))) } else { None },
+        }),
+        fee: json!({"dao_treasury_fee": "10000", "treasury_address": if c.with_treasury { Some(addr32(pp, &tag("treasury"))) } else { None }}),
+        monitors: json!([addr20(pp, &tag("m0")), addr20(pp, &tag("m1"))]),
+        subdenom: "milkTIA".into(),
+        batch_period: 86_400 + variant as u64,
+    }
+}
+
+fn apply_muts(c: &CCase, p: &mut Parts) -> bool {
+    let mut changed = false;
+    let np = c.native_prefix.clone();
+    let pp = c.proto_prefix.clone();
+    for (field, kind, arg) in &c.muts {
+        let (kind, arg) = (*kind, *arg);
+        let mut_s = |v: &mut Value, other: &str| {
+            if let Some(s) = v.as_str() {
+                let n = mutate(s, kind, arg, other);
+                if n != s {
+                    *v = json!(n);
+                    return true;
+                }
+            }
+            false
+        };
+        changed |= match field % 15 {
+            0 => {
+                p.native["account_address_prefix"] = json!(if kind % 2 == 0 { BAD_PREFIX[arg as usize % BAD_PREFIX.len()].to_string() } else { mutate(&np, kind, arg, "x") });
+                true
+            }
+            1 => {
+                p.native["validator_address_prefix"] = json!(if kind % 2 == 0 { BAD_PREFIX[arg as usize % BAD_PREFIX.len()].to_string() } else { np.clone() });
+                true
+            }
+            2 => {
+                p.native["token_denom"] = json!(BAD_DENOM[arg as usize % BAD_DENOM.len()]);
+                true
+            }
+            3 => mut_s(&mut p.native["validators"][0], &np),
+            4 => {
+                let a = p.native["validators"].as_array().cloned().unwrap_or_default();
+                let mut b = a.clone();
+                match kind % 3 {
+                    0 => b.push(a[arg as usize % a.len()].clone()),
+                    1 => b.push(json!(a[0].as_str().unwrap_or("").to_uppercase())),
+                    _ => b.push(json!(addr20(&np, "notavaloper"))),
+                }
+                p.native["validators"] = json!(b);
+                true
+            }
+            5 => mut_s(&mut p.native["staker_address"], &pp),
+            6 => mut_s(&mut p.native["reward_collector_address"], &format!("{}valoper", np)),
+            7 => {
+                p.protocol["account_address_prefix"] = json!(if kind % 2 == 0 { BAD_PREFIX[arg as usize % BAD_PREFIX.len()].to_string() } else { mutate(&pp, kind, arg, "x") });
+                true
+            }
+            8 => {
+                let cur = p.protocol["ibc_token_denom"].as_str().unwrap_or("").to_string();
+                p.protocol["ibc_token_denom"] = json!(match kind % 4 {
+                    0 => BAD_IBC[arg as usize % BAD_IBC.len()].to_string(),
+                    1 => cur[..cur.len() - 1].to_string(),
+                    2 => format!("{}A", cur),
+                    _ => cur.replacen("ibc/", "ibc", 1),
+                });
+                true
+            }
+            9 => {
+                p.protocol["ibc_channel_id"] = json!(BAD_CHANNELS[arg as usize % BAD_CHANNELS.len()]);
+                true
+            }
+            10 => {
+                if p.protocol["oracle_address"].is_null() {
+                    p.protocol["oracle_address"] = json!(addr20(&np, "oracle-on-native"));
+                    true
+                } else {
+                    mut_s(&mut p.protocol["oracle_address"], &np)
+                }
+            }
+            11 => {
+                if p.fee["treasury_address"].is_null() {
+                    p.fee["treasury_address"] = json!(addr20(&np, "treasury-on-native"));
+                    true
+                } else {
+                    mut_s(&mut p.fee["treasury_address"], &np)
+                }
+            }
+            12 => mut_s(&mut p.monitors[0], &np),
+            13 => {
+                let a = p.monitors.as_array().cloned().unwrap_or_default();
+                let mut b = a.clone();
+                match kind % 3 {
+                    0 => b.push(a[arg as usize % a.len()].clone()),
+                    1 => b.push(json!(a[0].as_str().unwrap_or("").to_uppercase())),
+                    _ => b.push(json!(addr20(&np, "monitor-on-native"))),
+                }
+                p.monitors = json!(b);
+                true
+            }
+            _ => {
+                p.subdenom = BAD_DENOM[arg as usize % BAD_DENOM.len()].to_string();
+                true
+            }
+        };
+    }
+    changed
+}
+
+pub fn eval(c: &CCase) -> Eval {
+    let mut ev = Eval::default();
+    let pp = c.proto_prefix.clone();
+    let setup = Setup {
+        proto_prefix: pp.clone(),
+        native_prefix: c.native_prefix.clone(),
+        valoper_prefix: format!("{}valoper", c.native_prefix),
+        channel: "channel-7".into(),
+        ibc_denom: "ibc/X".into(),
+        native_denom: "utia".into(),
+        subdenom: "milkTIA".into(),
+        staking_addr: addr32(&pp, "staking-contract"),
+        treasury_addr: addr32(&pp, "treasury-contract"),
+        oracle_addr: addr32(&pp, "oracle-contract"),
+        sink_addr: addr32(&pp, "sink-contract"),
+    };
+    let s_addr = setup.staking_addr.clone();
+    let admin = addr20(&pp, "admin0");
+    let mut w = World::new(setup, 1_700_000_000_000_000_000);
+    let mut viol = vec![];
+    let mut h = Fnv::default();
+    let inst = |p: &Parts| json!({"native_chain_config": p.native, "protocol_chain_config": p.protocol, "protocol_fee_config": p.fee, "liquid_stake_token_denom": p.subdenom, "batch_period": p.batch_period, "monitors": p.monitors}).to_string();
+    let get_cfg = |w: &mut World| -> Option<Value> { w.query(Which::Staking, "{\"config\":{}}").ok().and_then(|b| serde_json::from_slice(&b).ok()) };
+    let raw_cfg = |w: &World| -> Value { w.st.staking.map.get(&b"config".to_vec()).and_then(|v| serde_json::from_slice(v).ok()).unwrap_or(Value::Null) };
+
+    if c.mode == 0 {
+        let mut p = base_parts(c, 0);
+        let corrupted = apply_muts(c, &mut p);
+        let r = w.tx_instantiate(Which::Staking, &admin, &inst(&p));
+        ev.stats.txs += 1;
+        if r.ok {
+            ev.stats.tx_ok += 1;
+            match get_cfg(&mut w) {
+                Some(cfg) => {
+                    if let Err(e) = well_formed(&cfg, true, true, true, true) {
+                        viol.push(Violation { prop: "C14", clause: "accepted_config_is_well_formed", step: 1, msg: format!("instantiate accepted an ill-formed configuration ({}): {}", e, cfg) });
+                    }
+                    let lst = cfg["liquid_stake_token_denom"].as_str().unwrap_or("");
+                    let sub = lst.rsplit('/').next().unwrap_or("");
+                    if sub.is_empty() || !sub.chars().all(|c| c.is_ascii_alphabetic()) || lst != format!("factory/{}/{}", s_addr, sub) {
+                        viol.push(Violation { prop: "C14", clause: "accepted_config_is_well_formed", step: 1, msg: format!("LST denom {:?}", lst) });
+                    }
+                    if corrupted {
+                        ev.stats.probe("corrupted_instantiate_accepted_but_well_formed");
+                    }
+                }
+                None => viol.push(Violation { prop: "C16", clause: "queries_fail", step: 1, msg: "Config query failed after instantiate".into() }),
+            }
+        } else if !corrupted && !r.panicked {
+            viol.push(Violation { prop: "HARNESS", clause: "valid_config_refused", step: 1, msg: format!("uncorrupted instantiate refused: {}", r.err) });
+        } else {
+            ev.stats.probe("corrupted_instantiate_refused");
+        }
+        h.u64(r.ok as u64);
+    } else {
+        let base = base_parts(c, 0);
+        let r = w.tx_instantiate(Which::Staking, &admin, &inst(&base));
+        if !r.ok {
+            viol.push(Violation { prop: "HARNESS", clause: "valid_config_refused", step: 0, msg: format!("base instantiate refused: {}", r.err) });
+        } else if c.mode == 1 {
+            let mut p = base_parts(c, 1);
+            let corrupted = apply_muts(c, &mut p);
+            let m = c.sections;
+            let (sn, sp, sf, sm, sb) = (m & 1 != 0, m & 2 != 0, m & 4 != 0, m & 8 != 0, m & 16 != 0);
+            let msg = json!({"update_config": {
+                "native_chain_config": if sn { p.native.clone() } else { Value::Null },
+                "protocol_chain_config": if sp { p.protocol.clone() } else { Value::Null },
+                "protocol_fee_config": if sf { p.fee.clone() } else { Value::Null },
+                "monitors": if sm { p.monitors.clone() } else { Value::Null },
+                "batch_period": if sb { json!(p.batch_period) } else { Value::Null },
+            }});
+            let before = raw_cfg(&w);
+            let store_before = w.st.staking.map.clone();
+            let r = w.tx_execute(&s_addr, &admin, &[], &msg.to_string());
+            ev.stats.txs += 1;
+            if r.ok {
+                ev.stats.tx_ok += 1;
+                let after = raw_cfg(&w);
+                if let Err(e) = well_formed(&after, sn, sp, sf, sm) {
+                    viol.push(Violation { prop: "C14", clause: "accepted_config_is_well_formed", step: 1, msg: format!("UpdateConfig accepted an ill-formed section ({}): {}", e, msg) });
+                }
+                for (name, supplied) in [("native_chain_config", sn), ("protocol_chain_config", sp), ("protocol_fee_config", sf), ("monitors", sm), ("batch_period", sb)] {
+                    if !supplied && before[name] != after[name] {
+                        viol.push(Violation { prop: "C14", clause: "update_is_sectional", step: 1, msg: format!("section {} not supplied but changed from {} to {}", name, before[name], after[name]) });
+                    }
+                }
+                if before["liquid_stake_token_denom"] != after["liquid_stake_token_denom"] || before["stopped"] != after["stopped"] {
+                    viol.push(Violation { prop: "C14", clause: "update_never_touches_denom_or_flag", step: 1, msg: format!("LST denom / stopped changed: {} -> {}", before, after) });
+                }
+                for (k, v) in &w.st.staking.map {
+                    if k != b"config" && store_before.get(k) != Some(v) {
+                        viol.push(Violation { prop: "C14", clause: "update_is_sectional", step: 1, msg: format!("UpdateConfig changed record {:?}", String::from_utf8_lossy(k)) });
+                    }
+                }
+                if corrupted {
+                    ev.stats.probe("corrupted_update_accepted_but_well_formed");
+                }
+            } else {
+                if w.st.staking.map != store_before {
+                    viol.push(Violation { prop: "C14", clause: "refused_update_changes_nothing", step: 1, msg: "refused UpdateConfig changed storage".into() });
+                }
+                if !corrupted && !r.panicked {
+                    viol.push(Violation { prop: "HARNESS", clause: "valid_config_refused", step: 1, msg: format!("uncorrupted update refused: {}", r.err) });
+                }
+                ev.stats.probe("corrupted_update_refused");
+            }
+            h.u64(r.ok as u64);
+            h.u64(m as u64);
+        } else {
+            // validator edits
+            let vp = format!("{}valoper", c.native_prefix);
+            let existing = base.native["validators"][0].as_str().unwrap_or("").to_string();
+            let fresh = addr20(&vp, "v-new");
+            let (kind, arg) = c.muts.first().map(|m| (m.1, m.2)).unwrap_or((12, 0));
+            let subject = if c.sections % 2 == 0 { existing.clone() } else { fresh.clone() };
+            let candidate = mutate(&subject, kind, arg, &c.native_prefix);
+            let before = raw_cfg(&w);
+            let old: Vec<String> = before["native_chain_config"]["validators"].as_array().map(|a| a.iter().map(|v| v.as_str().unwrap_or("").to_string()).collect()).unwrap_or_default();
+            let msg = if c.mode == 2 { json!({"add_validator": {"new_validator": candidate}}) } else { json!({"remove_validator": {"validator": candidate}}) };
+            let r = w.tx_execute(&s_addr, &admin, &[], &msg.to_string());
+            ev.stats.txs += 1;
+            if r.ok {
+                ev.stats.tx_ok += 1;
+                let after = raw_cfg(&w);
+                let new: Vec<String> = after["native_chain_config"]["validators"].as_array().map(|a| a.iter().map(|v| v.as_str().unwrap_or("").to_string()).collect()).unwrap_or_default();
+                let wf = b32_decode(&candidate).map(|d| d.0 == vp).unwrap_or(false);
+                let mut expect = old.clone();
+                let ok = if c.mode == 2 {
+                    let dup = old.contains(&candidate);
+                    expect.push(candidate.clone());
+                    wf && !dup
+                } else {
+                    let present = old.contains(&candidate);
+                    expect.retain(|x| *x != candidate);
+                    wf && present
+                };
+                if !ok {
+                    viol.push(Violation { prop: "C14", clause: "validator_edit_validates", step: 1, msg: format!("{} accepted with old list {:?}", msg, old) });
+                } else if new != expect {
+                    viol.push(Violation { prop: "C14", clause: "validator_edit_exact", step: 1, msg: format!("{} turned {:?} into {:?}", msg, old, new) });
+                }
+                let mut a2 = after.clone();
+                a2["native_chain_config"]["validators"] = before["native_chain_config"]["validators"].clone();
+                if a2 != before {
+                    viol.push(Violation { prop: "C14", clause: "validator_edit_exact", step: 1, msg: "validator edit changed other configuration".into() });
+                }
+            }
+            h.u64(r.ok as u64);
+            h.str(&candidate);
+        }
+    }
+    for p in &w.panics {
+        viol.push(Violation { prop: "C16", clause: "panic", step: 1, msg: format!("{}::{} panicked: {} | input: {}", p.contract, p.entry, p.msg, p.input) });
+    }
+    for m in &c.muts {
+        h.u64(m.0 as u64 * 10000 + m.1 as u64 * 100 + m.2 as u64);
+    }
+    h.str(&c.proto_prefix);
+    h.str(&c.native_prefix);
+    h.u64(c.mode as u64);
+    ev.viol = viol;
+    ev.hash = h.0;
+    ev.nontrivial = !c.muts.is_empty();
+    ev.stats.ops = 1;
+    ev
 }
